@@ -557,6 +557,16 @@ func (ctx *Ctx) rloop(path []byte, node *node, tpl *Tpl, w io.Writer) {
 			return
 		}
 	}
+	// The variable isn't set at all: no iterations as well, so the for-else branch must be rendered.
+	if len(node.child) > 1 && node.child[1].typ == typeCondFalse {
+		child := node.child[1].child
+		for j := 0; j < len(child); j++ {
+			ch := &child[j]
+			if ctx.Err = tpl.writeNode(w, ch, ctx); ctx.Err != nil {
+				break
+			}
+		}
+	}
 }
 
 // Replaces square brackets with variable to concrete values, example:
